@@ -1004,20 +1004,89 @@ func TestC41(t *testing.T) {
 			"(panic iff the model overflows / goes negative / has a duplicate); (int, 25%) BigInt pair incl. negatives and bound-hugging sums and products: Add/Sub/Mul/Neg/*Raw/Quo/Mod/"+
 			"comparisons/Min/Max/Int64/Uint64/constructors against math/big (panic iff result needs >255 bits or divisor is zero); (dec, 25%) BigDec pair (raw up to 315 bits, whole numbers, "+
 			"odd halves, tiny values): Add/Sub/Mul/MulTruncate/Quo/QuoTruncate/QuoRoundUp/MulInt/MulInt64/QuoInt/QuoInt64/RoundInt/TruncateInt/*Int64/Ceil/String/NewDecFromStr against big.Rat "+
-			"with half-to-even / truncation at the 18th digit (panic iff result needs >315 resp. >255 bits or divisor is zero). "+
+			"with half-to-even / truncation at the 18th digit (panic iff result needs >315 resp. >255 bits or divisor is zero); (uint, 1 in 13) Uint pair up to 2^256-1 incl. products and sums exactly at / one past the bound: Add/Sub/Mul/Quo/Mod/Incr/Decr/*Uint64 against math/big. "+
 			"non-trivial = coins: the sets share a denomination and at least one denomination is on one side only; int: an exact result within 1-2 bits of the 255-bit bound; "+
 			"dec: a Mul/Quo/RoundInt whose documented rounding differs from plain truncation (rounded away from zero, or an exact tie), or a result within 1-2 bits of its bound",
 		map[string]float64{"coins": 0.35, "int": 0.15, "dec": 0.15, "coins-interleaved": 0.15, "coins-sub-negative": 0.08, "coins-sub-non-negative": 0.08, "coins-zero-removed": 0.08,
 			"coins-overflow": 0.03, "coins-zero-entry-input": 0.05, "int-overflow": 0.05, "int-boundary-no-overflow": 0.03, "dec-tie": 0.02, "dec-overflow": 0.02,
 			"dec-rounded-away-from-zero": 0.03, "dec-rounded-toward-zero": 0.03},
 		func(rt *rapid.T, c *harness.Case) {
-			switch k := rapid.IntRange(0, 3).Draw(rt, "kind"); k {
+			switch k := rapid.SampledFrom([]int{0, 0, 0, 1, 1, 1, 2, 2, 2, 3, 3, 3, 4}).Draw(rt, "kind"); k {
 			case 0, 1:
 				c41Coins(rt, c)
 			case 2:
 				c41Int(rt, c)
-			default:
+			case 3:
 				c41Dec(rt, c)
+			default:
+				c41Uint(rt, c)
 			}
 		})
+}
+
+// c41Uint: the unsigned integer type (range 0 .. 2^256-1) - Add/Sub/Mul/Quo/Mod/Incr/Decr and the *Uint64 forms against
+// math/big: the exact value when it lies in the range, a panic when it does not (or the divisor is zero).
+func c41Uint(rt *rapid.T, c *harness.Case) {
+	c.Label("uint")
+	a, b := c41Mag(rt, "ua", 256), c41Mag(rt, "ub", 256)
+	switch rapid.IntRange(0, 3).Draw(rt, "urelate") {
+	case 0: // product exactly at / one past the bound
+		if a.Sign() > 0 {
+			b = new(big.Int).Quo(c41Max(256), a)
+			b.Add(b, big.NewInt(int64(rapid.IntRange(0, 1).Draw(rt, "uOver"))))
+		}
+	case 1: // sum exactly at / one past the bound
+		b = new(big.Int).Sub(c41Max(256), a)
+		b.Add(b, big.NewInt(int64(rapid.IntRange(0, 1).Draw(rt, "uOver"))))
+	}
+	if b.Cmp(c41Max(256)) > 0 {
+		b = c41Max(256)
+	}
+	c.Opf("uint a=%s b=%s (bits %d,%d)", a, b, a.BitLen(), b.BitLen())
+	ua, ub := sdk.NewUintFromBigInt(c41Copy(a)), sdk.NewUintFromBigInt(c41Copy(b))
+	inRange := func(x *big.Int) bool { return x.Sign() >= 0 && x.BitLen() <= 256 }
+	check := func(op string, want *big.Int, f func() sdk.Uint) {
+		var got sdk.Uint
+		p, msg := c41Try(func() { got = f() })
+		if want == nil || !inRange(want) {
+			c.Label("uint-out-of-range")
+			if !p {
+				c.Violation("C41/uint/"+op+"/out-of-range-result-returned", "%s(%s, %s) must fail (model %v) but returned %s", op, a, b, want, got)
+			}
+			return
+		}
+		if want.BitLen() >= 255 {
+			c.Label("uint-boundary-in-range")
+			c.NonTrivial()
+		}
+		if p {
+			c.Violation("C41/uint/"+op+"/representable-result-refused", "%s(%s, %s) = %s lies in 0..2^256-1 but the call failed: %s", op, a, b, want, msg)
+			return
+		}
+		if got.BigInt().Cmp(want) != 0 {
+			c.Violation("C41/uint/"+op+"/value-differs", "%s(%s, %s) = %s, math/big gives %s", op, a, b, got, want)
+		}
+	}
+	check("Add", new(big.Int).Add(a, b), func() sdk.Uint { return ua.Add(ub) })
+	check("Sub", new(big.Int).Sub(a, b), func() sdk.Uint { return ua.Sub(ub) })
+	check("Mul", new(big.Int).Mul(a, b), func() sdk.Uint { return ua.Mul(ub) })
+	var q, r *big.Int
+	if b.Sign() != 0 {
+		q, r = new(big.Int).Quo(a, b), new(big.Int).Mod(a, b)
+	}
+	check("Quo", q, func() sdk.Uint { return ua.Quo(ub) })
+	check("Mod", r, func() sdk.Uint { return ua.Mod(ub) })
+	check("Incr", new(big.Int).Add(a, big.NewInt(1)), func() sdk.Uint { return ua.Incr() })
+	check("Decr", new(big.Int).Sub(a, big.NewInt(1)), func() sdk.Uint { return ua.Decr() })
+	if b.IsUint64() {
+		u64 := b.Uint64()
+		check("AddUint64", new(big.Int).Add(a, b), func() sdk.Uint { return ua.AddUint64(u64) })
+		check("SubUint64", new(big.Int).Sub(a, b), func() sdk.Uint { return ua.SubUint64(u64) })
+		check("MulUint64", new(big.Int).Mul(a, b), func() sdk.Uint { return ua.MulUint64(u64) })
+		check("QuoUint64", q, func() sdk.Uint { return ua.QuoUint64(u64) })
+	}
+	// the originals were not modified
+	if ua.BigInt().Cmp(a) != 0 || ub.BigInt().Cmp(b) != 0 {
+		c.Violation("C41/uint/operand-mutated", "operands changed to %s, %s (were %s, %s)", ua, ub, a, b)
+	}
 }
